@@ -42,15 +42,7 @@ impl vstd::std_specs::cmp::PartialEqSpecImpl for ProcessDesision {
     open spec fn eq_spec(&self, other: &Self) -> bool { *self == *other }
 }
 
-// Get::get is assumed to be a FUNCTION of the getter and the context (standing assumption of C03/C10/C11/C13)
-pub trait Get {
-    spec fn get_spec(&self, value: &Context) -> Option<JsonValue>;
-//@@ fn get.get = src/selection.rs :: trait Get :: fn get
-//@@ ret r
-//@@ header
-        ensures r == self.get_spec(value),
-//@@ endfn
-}
+//@@ include prelude/get_trait.rs
 
 pub mod prefix_lemmas {
 use vstd::prelude::*;
